@@ -18,7 +18,7 @@ const rule = "random histories under virtual time with the DB started: multi-ope
 	"are re-queried after every transaction and after collection windows: the transcript of a fixed probe battery must equal the one recorded at creation and the model of that snapshot; " +
 	"non-trivial = a retained snapshot was re-queried after a later commit; distinct = hash of the operation log"
 
-var opts = dbsim.Opts{Tables: 2, Txns: 40, MaxOps: 8, ProbesPerIndex: 4, AbortPct: 20, Iterators: true, Retain: 16,
+var opts = dbsim.Opts{Tables: 2, Txns: 40, MaxOps: 8, ProbesPerIndex: 4, AbortPct: 20, Iterators: true, Retain: 16, Initializers: true,
 	Report: map[string]bool{"frozen": true}}
 
 func TestVerif_Snapshots(t *testing.T) {
@@ -62,7 +62,7 @@ func TestVerifRace_Readers(t *testing.T) {
 	r.Require("frozen_rechecks_concurrent", "commits")
 	n := vkit.N(30, 600)
 	r.ParallelCases(n, 2, func(i int) {
-		o := dbsim.Opts{Tables: 2, Txns: 60, MaxOps: 8, ProbesPerIndex: 1, AbortPct: 20, SchemaPick: []int{1, 3, 0}, Report: map[string]bool{}}
+		o := dbsim.Opts{Tables: 2, Txns: 60, MaxOps: 8, ProbesPerIndex: 1, AbortPct: 20, SchemaPick: []int{1, 3, 0}, Initializers: true, Report: map[string]bool{}}
 		s := dbsim.NewSim(r, i, o)
 		tabs := s.Tables()
 		stop := make(chan struct{})
